@@ -1,3 +1,5 @@
+//go:build go1.25
+
 package props
 
 // C18 — bigbuff.ExponentialRetry / bigbuff.FatalError: stops on success, fatal error or cancellation;
